@@ -534,6 +534,14 @@ simcam_get_frame(struct Camera* camera,
         goto Shutdown;
     }
 
+    // The shape may have been re-configured since the size check above (while
+    // this call was waiting for the frame): check again under the lock.
+    if (*nbytes < bytes_of_image(&self->im.shape)) {
+        ECHO(lock_release(&self->im.lock));
+        LOGE("Frame buffer too small for the current image shape.");
+        goto Error;
+    }
+
     memcpy(im, self->im.frame_data, bytes_of_image(&self->im.shape)); // NOLINT
     info_out->shape = self->im.shape;
     info_out->hardware_frame_id = self->im.frame_id;
